@@ -328,13 +328,23 @@ def prove(chk, leanchecker=False, skip=None):
 
 
 # -------------------------------------------------------------------- runners
+def _limit_child():
+    """memory ceiling for a harness / model child: a runaway allocation (e.g. gigabytes of padding
+    emitted by a changed implementation) must kill that child only, never the machine or the check"""
+    import resource
+    try:
+        resource.setrlimit(resource.RLIMIT_AS, (6 << 30, 6 << 30))
+    except Exception:
+        pass
+
+
 def _run_lines(binary, lines, timeout=3600):
     """Feed lines to a line-protocol binary; survive aborts (stack overflow) by restarting after the
     case that killed the process.  Returns {id: [fields…]}."""
     results = {}
     pending = list(lines)
     while pending:
-        p = subprocess.Popen([binary], stdin=subprocess.PIPE, stdout=subprocess.PIPE, stderr=subprocess.PIPE)
+        p = subprocess.Popen([binary], stdin=subprocess.PIPE, stdout=subprocess.PIPE, stderr=subprocess.PIPE, preexec_fn=_limit_child)
         data = ("\n".join(pending) + "\n").encode()
         try:
             out, err = p.communicate(data, timeout=timeout)
@@ -374,7 +384,7 @@ def run_parallel(binary, lines, workers=None, timeout=3600):
 
 def _run_chunk_guarded(binary, lines, timeout):
     """run one chunk; on timeout bisect to isolate the hanging case(s) (marked HANG)"""
-    p = subprocess.Popen([binary], stdin=subprocess.PIPE, stdout=subprocess.PIPE, stderr=subprocess.PIPE)
+    p = subprocess.Popen([binary], stdin=subprocess.PIPE, stdout=subprocess.PIPE, stderr=subprocess.PIPE, preexec_fn=_limit_child)
     try:
         out, err = p.communicate(("\n".join(lines) + "\n").encode(), timeout=timeout)
         res = {}
